@@ -275,9 +275,11 @@ class CFG:
                     out.append(n)
         return out
 
-    def must_pass(self, src: int, via: set[int], dst: set[int], skip_edge=None) -> tuple[bool, list[int]]:
+    def must_pass(self, src: int, via: set[int], dst: set[int], skip_edge=None, completed: bool = False) -> tuple[bool, list[int]]:
         """Does every path from src to any node of dst pass through a node of via?  Returns (ok, witness path).
-        skip_edge(node, successor id, kind) -> True removes an edge from consideration."""
+        skip_edge(node, successor id, kind) -> True removes an edge from consideration.
+        completed=True: a via node only counts when it is left normally; a path that leaves it through its exception edge (its effect
+        did not happen) is followed further."""
         parent: dict[int, int | None] = {src: None}
         todo = [src]
         while todo:
@@ -290,7 +292,9 @@ class CFG:
                     cur = parent[cur]
                 return False, list(reversed(path))
             for b, k in self.succ.get(n, []):
-                if b in via or b in parent:
+                if n in via and n != src and k != "exc":
+                    continue
+                if (b in via and not completed) or b in parent:
                     continue
                 if skip_edge is not None and skip_edge(self.nodes[n], b, k):
                     continue
